@@ -39,6 +39,57 @@ def in_repo(n, cur):
     return cur[0]
 
 
+def pointee_const(qt):
+    """is the outermost pointee / referee of this type const-qualified?  None if the type is not a pointer / reference"""
+    qt = qt.strip()
+    m = re.match(r"^(.*?)(\*|&)\s*(const|__restrict|volatile|\s)*$", qt)
+    if not m:
+        return None
+    inner = m.group(1).strip()
+    if inner.endswith("*") or inner.endswith("* const") or inner.endswith("*const"):
+        return inner.endswith("const")            # pointer to pointer: constness of the inner pointer itself
+    return bool(re.match(r"^const\b", inner) or re.search(r"\bconst$", inner))
+
+
+def scan_constcasts(root):
+    """casts in library code that remove const from a pointee / referee (a routine could then write through a const parameter)"""
+    out = []
+    cur = [""]
+
+    def read_only_use(parents):
+        """the cast value is dereferenced and read on the spot: ... (ParenExpr)* <- UnaryOperator(*) <- ImplicitCastExpr(LValueToRValue)"""
+        i = len(parents) - 1
+        while i >= 0 and parents[i].get("kind") == "ParenExpr":
+            i -= 1
+        if i >= 1 and parents[i].get("kind") == "UnaryOperator" and parents[i].get("opcode") == "*":
+            j = i - 1
+            while j >= 0 and parents[j].get("kind") == "ParenExpr":
+                j -= 1
+            return j >= 0 and parents[j].get("kind") == "ImplicitCastExpr" and parents[j].get("castKind") == "LValueToRValue"
+        return False
+
+    def walk(n, parents=()):
+        k = n.get("kind")
+        f = in_repo(n, cur)
+        if f.startswith(REPO + "/") and k in ("CXXConstCastExpr", "CStyleCastExpr", "CXXReinterpretCastExpr", "CXXStaticCastExpr", "CXXFunctionalCastExpr") and not read_only_use(list(parents)):
+            dst = n.get("type", {}).get("qualType", "")
+            if n.get("valueCategory") == "lvalue" and not dst.rstrip().endswith("&"):
+                dst = dst + " &"
+            inner = [c for c in n.get("inner", []) if c.get("kind")]
+            src = inner[-1].get("type", {}).get("qualType", "") if inner else ""
+            if inner and inner[-1].get("valueCategory") == "lvalue" and k == "CXXConstCastExpr" and not src.rstrip().endswith("&"):
+                src = src + " &"
+            pd, ps = pointee_const(dst), pointee_const(src)
+            if k == "CXXConstCastExpr" and not (pd is True):
+                out.append((k, src, dst, os.path.basename(f), n.get("range", {}).get("begin", {}).get("line")))
+            elif pd is False and ps is True:
+                out.append((k, src, dst, os.path.basename(f), n.get("range", {}).get("begin", {}).get("line")))
+        for c in n.get("inner", []):
+            walk(c, tuple(parents) + (n,))
+    walk(root)
+    return out
+
+
 def scan(root):
     statics, mutables, writes = [], [], []
     cur = [""]
@@ -104,7 +155,9 @@ def facts():
             import tempfile, shutil
             wd = tempfile.mkdtemp(prefix="jpv.c20.")
             try:
-                _FACTS["f"] = [(name,) + scan(root) for (name, root) in all_roots(wd)]
+                roots = all_roots(wd)
+                _FACTS["f"] = [(name,) + scan(root) for (name, root) in roots]
+                _FACTS["cc"] = [(name, scan_constcasts(root)) for (name, root) in roots]
             finally:
                 shutil.rmtree(wd, ignore_errors=True)
             for (_, _, mutables, _) in _FACTS["f"]:
@@ -121,6 +174,8 @@ def gen_ast(tu):
             for (name, statics, mutables, writes) in facts():
                 obs.append(("[%s] no function-local static variables" % name, "ok" if not statics else "fail", repr(statics[:6]), None))
                 MUT.update(m[0] for m in mutables)
+                cc = dict(_FACTS.get("cc", [])).get(name, [])
+                obs.append(("[%s] no cast removes const from a pointee or referee except to read the value on the spot (no routine can write through a pointer-to-const parameter)" % name, "ok" if not cc else "fail", repr(cc[:6]), None))
                 obs.append(("[%s] no function writes to, or hands out a mutable reference to, a namespace-scope object (%d non-const objects: dispatch table, exported C pointers, g1_endomorphism_lambda)" % (name, len({m[0] for m in mutables})),
                             "ok" if not writes else "fail", repr(writes[:6]), None))
         finally:
